@@ -386,6 +386,7 @@ pub fn run(args: &[String]) {
     }
     // dangling dependency
     let mut dangling_checked = 0;
+    let mut dangling_with_unseen_namesake = 0;
     for r in 0..(nrandom / 4).max(8) {
         if r % nshards != shard {
             continue;
@@ -406,6 +407,22 @@ pub fn run(args: &[String]) {
         materialise(&root, n, &adj, rng.below(2048), Some(who));
         DANGLING_KIND.store(0, std::sync::atomic::Ordering::Relaxed);
         dangling_checked += 1;
+        if kind == 0 && r / nshards / 3 % 2 == 1 {
+            // a buildpack with the missing id exists - where the workspace's buildpacks are not looked for: in a hidden directory and in one the
+            // workspace's ignore file names (packaged output, vendored copies). It is not a buildpack of this workspace: the dependency dangles
+            for (k, d) in [root.join(".vendor/missing"), root.join("packaged/missing")].iter().enumerate() {
+                fs::create_dir_all(d).unwrap();
+                if k == 0 {
+                    fs::write(d.join("buildpack.toml"), "api = \"0.10\"\n[buildpack]\nid = \"vp/missing\"\nversion = \"1.0.0\"\n[[order]]\n[[order.group]]\nid = \"vp/none\"\nversion = \"1.0.0\"\n").unwrap();
+                    fs::write(d.join("package.toml"), "[buildpack]\nuri = \".\"\n").unwrap();
+                } else {
+                    fs::write(d.join("buildpack.toml"), "api = \"0.10\"\n[buildpack]\nid = \"vp/missing\"\nversion = \"1.0.0\"\n[[targets]]\nos = \"linux\"\narch = \"amd64\"\n").unwrap();
+                    fs::write(d.join("Cargo.toml"), "[package]\nname = \"missing\"\nversion = \"0.0.0\"\n").unwrap();
+                }
+            }
+            fs::write(root.join(".ignore"), "packaged/\n").unwrap();
+            dangling_with_unseen_namesake += 1;
+        }
         match build_libcnb_buildpacks_dependency_graph(&root) {
             Ok(_) => {
                 if tally.violations.len() < 5 {
@@ -423,7 +440,7 @@ pub fn run(args: &[String]) {
     }
     println!(
         "{}",
-        json!({"dags": tally.dags, "exhaustive_dags": exhaustive_dags, "orderings": tally.orderings, "dangling_checked": dangling_checked,
+        json!({"dags": tally.dags, "exhaustive_dags": exhaustive_dags, "orderings": tally.orderings, "dangling_checked": dangling_checked, "dangling_with_unseen_namesake": dangling_with_unseen_namesake,
                "shapes": tally.shapes.iter().map(|(d, k)| json!([d, k])).collect::<Vec<_>>(), "violations": tally.violations, "samples": tally.samples})
     );
 }
